@@ -783,7 +783,7 @@ fn process_preprocessed_file(
                 }
             }
             slice = &bytes[start..];
-            if slice[0] == b'\n' {
+            if slice.first() == Some(&b'\n') {
                 start += 1;
             }
             hash_start = start;
